@@ -22,8 +22,8 @@ type Operands struct {
 	B  []byte
 	// Backing is the whole caller buffer B is a window of (B itself if none).
 	Backing []byte
-	U  uint32
-	C  int
+	U       uint32
+	C       int
 }
 
 func (o *Operands) recvPtr() unsafe.Pointer {
@@ -159,10 +159,10 @@ var Alphabet = []*OpDesc{
 	{Name: "Element.SetWideBytes", Recv: KElem, Bytes: true, Writes: true, Fallible: true, Fn: func(o *Operands) Outcome { return retEE(o.RE.SetWideBytes(o.B)) }},
 
 	// harness pseudo-operations (things a caller does without the library)
-	{Name: "H.ZeroPoint", Recv: KPoint, Pseudo: true},    // var p Point
-	{Name: "H.Scribble", Recv: KNone, Pseudo: true},       // mutate a previously returned value
-	{Name: "H.Probe", Recv: KNone, Pseudo: true},          // re-issue a recorded call on copies
-	{Name: "H.CopyOut", Recv: KNone, Pseudo: true},        // copy a returned Element/Point/Scalar into a slot
+	{Name: "H.ZeroPoint", Recv: KPoint, Pseudo: true}, // var p Point
+	{Name: "H.Scribble", Recv: KNone, Pseudo: true},   // mutate a previously returned value
+	{Name: "H.Probe", Recv: KNone, Pseudo: true},      // re-issue a recorded call on copies
+	{Name: "H.CopyOut", Recv: KNone, Pseudo: true},    // copy a returned Element/Point/Scalar into a slot
 }
 
 var opIndex = func() map[string]*OpDesc {
